@@ -43,6 +43,8 @@ CONSTANTS Models,      \* e.g. {"M1","M2"}
           MVals,       \* ids of module values
           OVals,       \* ids of modelx objects that assignments may bind (subset of 101..104)
           WithDelSpace,\* explore `del model.<space>`
+          WithChild,   \* the models have the child space A.K (FALSE: only A and B, which keeps
+                       \* the unbounded thorough configurations at their size)
           OpenFindings, \* KF labels of findings not repaired in the code: states reached through
                         \* their situation are judged and printed but not expanded
           MaxOps,      \* history length bound
@@ -370,7 +372,7 @@ OpsOf(St, m) ==
 Ops(St) == UNION {OpsOf(St, m) : m \in St.open}
 
 Init ==
-    /\ S = [open |-> Models, sp |-> [m \in Models |-> SpaceNames],
+    /\ S = [open |-> Models, sp |-> [m \in Models |-> IF WithChild THEN SpaceNames ELSE TopSpaces],
             base |-> [m \in Models |-> m \in BaseInit],
             refs |-> [m \in Models |-> {}], v2r |-> [m \in Models |-> {}], mgr |-> <<>>]
     /\ P = P0(Models)
